@@ -2,7 +2,7 @@ import WacProofs.Lemmas.ParserBasics
 /-
   C12 proofs, layer 2: the leaves — identifiers, strings, package names, package paths — on both
   sides (`parseIdent` vs `gId`, …), each characterised by what it needs of the next token
-  (`peekTok st = some k`) and what it builds from that token's text.
+  (`nextTok st = some k`) and what it builds from that token's text.
 
   Package names/paths carry a version; the parser model uses the model of
   `semver::Version::from_str` (`Wac.parseVersion`), the grammar the specification's reading of
@@ -36,7 +36,7 @@ theorem erase_identAt (tk : LTok) : eraseIdent (identAt tk) = identOf tk.text :=
 
 theorem parseIdent_eq_ok {st st' : PState} {id : Ident} :
     parseIdent st = .ok (id, st') ↔
-      peekTok st = some .Ident ∧ id = identAt (tokAt st) ∧ st' = adv st := by
+      nextTok st = some .Ident ∧ id = identAt (tokAt st) ∧ st' = adv st := by
   unfold parseIdent
   simp only [Except.bind_eq_ok, Prod.exists, parseToken_eq_ok]
   constructor
@@ -61,7 +61,7 @@ theorem gId_eq : gId = (class_ .id >>= fun s => pure (identOf s)) := by
 
 theorem mem_gId {st : PState} {x : Ident} {r : List STok} :
     (x, r) ∈ gId (abs st) ↔
-      peekTok st = some .Ident ∧ x = identOf (tokAt st).text ∧ r = abs (adv st) := by
+      nextTok st = some .Ident ∧ x = identOf (tokAt st).text ∧ r = abs (adv st) := by
   rw [gId_eq]
   simp only [bind_apply, List.mem_flatMap, Prod.exists, mem_class_id, pure_apply, List.mem_singleton, Prod.mk.injEq]
   constructor
@@ -79,7 +79,7 @@ theorem erase_stringAt (tk : LTok) : eraseString (stringAt tk) = stringOf tk.tex
 
 theorem parseString_eq_ok {st st' : PState} {s : StringLit} :
     parseString st = .ok (s, st') ↔
-      peekTok st = some .String ∧ s = stringAt (tokAt st) ∧ st' = adv st := by
+      nextTok st = some .String ∧ s = stringAt (tokAt st) ∧ st' = adv st := by
   unfold parseString
   simp only [Except.bind_eq_ok, Prod.exists, parseToken_eq_ok]
   constructor
@@ -91,7 +91,7 @@ theorem parseString_eq_ok {st st' : PState} {s : StringLit} :
 
 theorem mem_gString {st : PState} {x : StringLit} {r : List STok} :
     (x, r) ∈ gString (abs st) ↔
-      peekTok st = some .String ∧ x = stringOf (tokAt st).text ∧ r = abs (adv st) := by
+      nextTok st = some .String ∧ x = stringOf (tokAt st).text ∧ r = abs (adv st) := by
   unfold gString
   simp only [bind_apply, List.mem_flatMap, Prod.exists, mem_class_string, pure_apply, List.mem_singleton, Prod.mk.injEq]
   constructor
@@ -127,7 +127,7 @@ theorem gPackageName_eq : gPackageName = (class_ .packageName >>= fun s =>
 
 theorem mem_gPackageName {st : PState} {x : PackageName} {r : List STok} :
     (x, r) ∈ gPackageName (abs st) ↔
-      peekTok st = some .PackageName ∧ pkgNameOf (tokAt st).text = some x ∧ r = abs (adv st) := by
+      nextTok st = some .PackageName ∧ pkgNameOf (tokAt st).text = some x ∧ r = abs (adv st) := by
   rw [gPackageName_eq]
   simp only [bind_apply, List.mem_flatMap, Prod.exists, mem_class_packageName]
   constructor
@@ -168,7 +168,7 @@ def pkgNameAt (tk : LTok) : Option PackageName :=
 
 theorem parsePackageName_eq_ok {st st' : PState} {p : PackageName} :
     parsePackageName st = .ok (p, st') ↔
-      peekTok st = some .PackageName ∧ pkgNameAt (tokAt st) = some p ∧ st' = adv st := by
+      nextTok st = some .PackageName ∧ pkgNameAt (tokAt st) = some p ∧ st' = adv st := by
   unfold parsePackageName pkgNameAt
   simp only [Except.bind_eq_ok, Prod.exists, parseToken_eq_ok]
   constructor
@@ -222,7 +222,7 @@ theorem gPackagePath_eq : gPackagePath = (class_ .packagePath >>= fun s =>
 
 theorem mem_gPackagePath {st : PState} {x : PackagePath} {r : List STok} :
     (x, r) ∈ gPackagePath (abs st) ↔
-      peekTok st = some .PackagePath ∧ pkgPathOf (tokAt st).text = some x ∧ r = abs (adv st) := by
+      nextTok st = some .PackagePath ∧ pkgPathOf (tokAt st).text = some x ∧ r = abs (adv st) := by
   rw [gPackagePath_eq]
   simp only [bind_apply, List.mem_flatMap, Prod.exists, mem_class_packagePath]
   constructor
@@ -246,7 +246,7 @@ def pkgPathAt (tk : LTok) : Option PackagePath :=
 
 theorem parsePackagePath_eq_ok {st st' : PState} {p : PackagePath} :
     parsePackagePath st = .ok (p, st') ↔
-      peekTok st = some .PackagePath ∧ pkgPathAt (tokAt st) = some p ∧ st' = adv st := by
+      nextTok st = some .PackagePath ∧ pkgPathAt (tokAt st) = some p ∧ st' = adv st := by
   unfold parsePackagePath pkgPathAt
   simp only [Except.bind_eq_ok, Prod.exists, parseToken_eq_ok]
   constructor
